@@ -955,3 +955,15 @@ def entry_rule(rep, ctx, f, sfx):
         r.instance("vm:dispatch", where(vr["body"]))
         if not ok2:
             r.violation("vm:dispatch", where(vr["body"]), "Vm::parse does not start from the rule it was given")
+        # ... on every path: name resolution (grammar rules first, then built-ins) is parse_rule's business; an exit of
+        # Vm::parse that never reaches pest::state answers for names parse_rule would have resolved (e.g. `EOI`, which
+        # the generated parsers accept as a start rule)
+        from ..hirq import PathEnum as _PE, exits as _exits
+        r.instance("vm:every-path", where(vr["body"]))
+        for (ev, out) in _exits(_PE(vr, inline_closures=False).paths()):
+            if not any(e.kind == "call" and callee(e.node) == "pest::parser_state::state" for e in ev):
+                r.violation("vm:every-path", where(vr["body"]),
+                            "a path of Vm::parse returns without running pest::state: it decides about the start rule "
+                            "before parse_rule can resolve it (a built-in such as EOI is a valid start rule of the "
+                            "generated parser)")
+                break
